@@ -6,13 +6,16 @@ _RW = {"middleware/cache": ["time"], "middleware": ["time"], "internal/dnsutil":
 CHECK = {
     "level": "model_checking",
     "engines": ["space"],
-    "technique": "explicit-state BFS over admission/hit/advance/purge/prefetch event histories on the real cache pipeline under a virtual clock, lock-step against a reference lifetime model; every serving route checked in every state",
-    "level_text": "Breadth-first search over event histories (admissions of positive / signed / alias / two-lap alias (middle name answered with a bare CNAME by a local handler in front of the cache, so the cache's own chase walks two laps) / negative / locally validated negative answers with TTL, RRSIG-expiry, SOA-minimum and delegation-lease parameters; clock advances around every boundary; purge; prefetch start/complete/withdrawal orders), each history replayed on a fresh real Cache with time.Now swapped for a virtual clock; in every reached state every cached piece is read through the message path, byte fast path, wire-born strict path and Store.Get and judged against the reference deadline (min of floored TTLs, RRSIG expiry, SOA minimum, lease; composed alias inherits its pieces), TTL shown <= remaining, TTL non-increasing per stored entry.",
+    "technique": "explicit-state BFS over admission/hit/advance/purge/prefetch event histories on the real cache pipeline under a virtual clock, lock-step against a reference lifetime model; every serving route checked in every state; exhaustive enumeration of single stored responses of every shape x TTL assignment x probe instants around each boundary against a per-record reference lifetime",
+    "level_text": "Breadth-first search over event histories (admissions of positive / signed / alias / two-lap alias (middle name answered with a bare CNAME by a local handler in front of the cache, so the cache's own chase walks two laps) / negative / locally validated negative answers with TTL, RRSIG-expiry, SOA-minimum and delegation-lease parameters; clock advances around every boundary; purge; prefetch start/complete/withdrawal orders), each history replayed on a fresh real Cache with time.Now swapped for a virtual clock; in every reached state every cached piece is read through the message path, byte fast path, wire-born strict path and Store.Get and judged against the reference deadline (min of floored TTLs, RRSIG expiry, SOA minimum, lease; composed alias inherits its pieces), TTL shown <= remaining, TTL non-increasing per stored entry. shapes: one upstream response of every shape the resolver hands over {answer; answer + authority NS + glue; alias + target answer; alias -> NODATA; two-link alias -> NODATA; alias -> NXDOMAIN; NODATA; NXDOMAIN} x every assignment of {2,7,30} s (thorough {0,2,5,7,30,300}) to answer TTL / CNAME TTL / SOA TTL / SOA MINIMUM x RRSIG expiry {none, 12 s} (thorough {none,3,12,100}) is admitted through the real pipeline; the clock is advanced to 1 s before and after every boundary the parameters define and the name is asked again on the wire-born, byte-sink and message routes (the rest of the chain is answerable upstream with the same data). Every record of a reply served without an upstream call is held to its own part's lifetime clamp[5 s,24 h](min(record TTL, covering RRSIG time left, and for the SOA min(SOA TTL, SOA MINIMUM))) counted from the last time upstream delivered that part: not served past it, TTL shown <= time remaining.",
     "level_note": "Trusted: the reference model's reading that the 5 s floor applies to every TTL-derived bound (incl. RRSIG expiry and SOA minimum) and that only the delegation lease overrides it; the scripted stub stands in for the resolver (it folds the lease into ResponseMeta the way the resolver does). Wall-clock steps (NTP) are outside the virtual clock.",
     "rule": "state = (reference pieces with remaining lifetime) + (real cache raw entries/cuts/proofs with remaining lifetime), 100 ms resolution; transitions = one event applied by replaying the history on a fresh Cache; 'nontrivial' = states holding >= 2 live pieces",
     "assumptions": ["virtual clock only moves forward; real elapsed time inside one history (milliseconds) is far below the 1 s event granularity"],
-    "bounds": {"quick": "23-event alphabet, BFS depth 4; prefetch orders depth 5", "thorough": "30-event alphabet, BFS depth 6 (time-capped)"},
+    "bounds": {"quick": "shapes: 8 shapes x {2,7,30}^k x 2 signature settings x probes around each boundary (1.5k cases); 23-event alphabet, BFS depth 4; prefetch orders depth 5", "thorough": "shapes: TTL set {0,2,5,7,30,300}, 4 signature settings (20k cases); 30-event alphabet, BFS depth 6 (time-capped)"},
     "units": {
+        # one stored response of every shape the resolver hands over x every TTL assignment x probes around each boundary
+        "shapes": {"pkg": "middleware/cache", "run": "TestVerifC04Shapes", "harness": _H, "rewrite": _RW, "stub_tests": ["middleware/cache"],
+                   "budget_s": {"quick": 40, "thorough": 300}},
         "hist": {"pkg": "middleware/cache", "run": "TestVerifC04Hist", "harness": _H, "rewrite": _RW, "stub_tests": ["middleware/cache"],
                  "budget_s": {"quick": 70, "thorough": 800}},
         "prefetch": {"pkg": "middleware/cache", "run": "TestVerifC04Prefetch", "harness": _H, "rewrite": _RW, "stub_tests": ["middleware/cache"],
